@@ -141,7 +141,10 @@ def value_checks(m, T):
         nt = True
     if in_range:
         v = mval(m)
-        ulps = 4 + (sum(abs(e.numerator) for e in m.values()) / 8 if T == "long double" else 0) + (8 if any(e.denominator != 1 for e in m.values()) and T == "long double" else 0)
+        # pi (and every root) is itself only known to long double precision: each unit of exponent contributes up to one long-double ulp,
+        # i.e. 2^(digits(T)-64) ulps of T; plus 4 ulps for the final rounding chain
+        S = sum(abs(e.numerator) for e in m.values())
+        ulps = 4 + S * 2.0 ** (dig - 64) + (8 * 2.0 ** (dig - 64) if any(e.denominator != 1 for e in m.values()) else 0)
         if lv >= emin:
             tol = v * ulps * mpmath.mpf(2) ** (-(dig - 1))
         else:
